@@ -295,27 +295,32 @@ class Chooser(object):
 
 
 def choices(run, bound, max_execs=None):
-    """Enumerate every execution with at most ``bound`` deviations from the default answer.
+    """Enumerate every execution with at most ``bound`` deviations from the default answer,
+    level by level: all executions with 0 deviations, then exactly 1, then exactly 2, ...
 
-    run(prefix) -> (chooser, outcome).  Yields (choices, deviations, outcome); generator
-    ``.capped`` info is conveyed by raising StopIteration value."""
-    stack = [()]
+    run(prefix) -> (chooser, outcome).  Yields (choices, deviations, outcome).  With ``max_execs`` the
+    enumeration stops inside a level; the caller sees which deviation counts were completed from
+    the yielded deviation numbers (a level is complete iff a higher level was started or the
+    generator ended below the cap)."""
+    level = [()]
     n = 0
-    while stack:
-        prefix = stack.pop()
-        ch, outcome = run(prefix)
-        ch.finished()
-        n += 1
-        devs = sum(1 for c in ch.choices if c)
-        yield tuple(ch.choices), devs, outcome
-        if max_execs is not None and n >= max_execs:
-            return
-        for i in range(len(ch.choices) - 1, len(prefix) - 1, -1):
-            before = sum(1 for c in ch.choices[:i] if c)
-            if before + 1 > bound:
-                continue
-            for alt in range(ch.arity[i] - 1, 0, -1):
-                stack.append(tuple(ch.choices[:i]) + (alt,))
+    for k in range(bound + 1):
+        nxt = []
+        for prefix in level:
+            ch, outcome = run(prefix)
+            ch.finished()
+            n += 1
+            devs = sum(1 for c in ch.choices if c)
+            if devs != k:
+                raise HarnessError('deviation accounting broken: %d != %d' % (devs, k))
+            yield tuple(ch.choices), devs, outcome
+            if max_execs is not None and n >= max_execs:
+                return
+            if k < bound:
+                for i in range(len(prefix), len(ch.choices)):
+                    for alt in range(1, ch.arity[i]):
+                        nxt.append(tuple(ch.choices[:i]) + (alt,))
+        level = nxt
 
 
 def all_products(**domains):
